@@ -2,7 +2,7 @@
 
 Cases (JSON):
   {"kind": "schema", "name": ev, "aliases": ev, "pk": ev, "stats": [ev, ev, ev, ev],
-   "cols": [{"kw": [[field, ev], ...]}, ...], "records": [[[key, ev], ...], ...], "focus": null | "<guarded attribute>"}
+   "cols": [{"kw": [[field, ev], ...], ("same_as": i)}, ...], "records": [[[key, ev], ...], ...], "focus": null | "<guarded attribute>"}
   {"kind": "flat", "cls": "<column class>", "kw": [[field, ev], ...], "extra": "<which extra arguments>", "focus": null}
 ev = encoded Python value:  ["n"] None | ["b", bool] | ["i", int] | ["f", float.hex] | ["s", str] | ["y", [bytes]] |
   ["d", unscaled, exponent] finite Decimal (normalised) | ["D", y, m, d] date | ["T", y, mo, d, h, mi, s, us, tz] datetime |
@@ -10,7 +10,8 @@ ev = encoded Python value:  ["n"] None | ["b", bool] | ["i", int] | ["f", float.
   ["exp", is_object, behaviour, column, config_json, ignore_nulls] expectation (object or its dictionary) |
   ["l", [ev, ...]] list | ["j", json_text] a dict given by its JSON text | ["o", class, repr, truthy] anything else.
 Two encoded values are equal iff the Python values have the same class and compare equal (Decimal by numeric value,
-floats by bits).  A focus case asks only for the one attribute a finding guards; every other case compares every
+floats by bits).  A column with "same_as": i is the very same Python object as column i (listed twice in the schema; its
+kw is a copy of column i's).  Column names within a schema may repeat (self-join, a column selected twice).  A focus case asks only for the one attribute a finding guards; every other case compares every
 other attribute."""
 import dataclasses
 import importlib
@@ -434,6 +435,13 @@ def _observe_schema(case, S, T, orjson):
     obs = {"cols": [], "parse": []}
     cols = []
     for spec in case["cols"]:
+        if spec.get("same_as") is not None:          # the same object listed again
+            j = spec["same_as"]
+            if not (0 <= j < len(cols)) or case["cols"][j]["kw"] != spec["kw"]:
+                raise ValueError("C16: same_as must point at an earlier column with the same keywords")
+            cols.append(cols[j])
+            obs["cols"].append(obs["cols"][j])
+            continue
         kw = _kwargs(spec["kw"])
         o = {"fresh": None}
         base = _base(S.FlatColumn, kw, {})
@@ -933,7 +941,7 @@ def to_coq(case, obs):
                 _cres(b, lambda a: _ccolumn(a, I)), _cres(o["json"], lambda j: _cjson(j, I)),
                 _crobs(b[1], o["back"], I), _crobs(b[1], o["flat"], I),
                 _cdesc(o["desc"], I),
-                _cdesc(obs["desc2"][len(cols)] if "desc2" in obs else DUMMY, I))
+                _cdesc(obs["desc2"][len(cols)] if len(cols) < len(obs.get("desc2", [])) else DUMMY, I))
         else:
             t = "(mkobs [] [] %s (Raise OtherExn) (RFull (Raise OtherExn)) (RFull (Raise OtherExn)) (Raise OtherExn) (Raise OtherExn))" % _cres(b, lambda a: "")
         cols.append("(%s, %s)" % (_ckw(spec["kw"], I), t))
@@ -1023,6 +1031,18 @@ RECORD_VALUES = {
 }
 
 
+# text whose UTF-8 form is longer than its character count, mixed 1-, 2-, 3- and 4-byte characters early on: a BLOB[n] /
+# VARCHAR[n] column must cut such a default once, at construction, and re-parsing what was stored must not cut it again
+CUT_TEXTS = ["h\u00e9llo w\u00f6rld", "na\u00efve caf\u00e9", "\u65e5\u672c\u8a9e\u306e\u30c6\u30ad\u30b9\u30c8", "a\u20acb\U0001d11ed\u00df", "\u00f1", "plain ascii"]
+CUT_LENGTHS = [1, 2, 3, 4, 5, 8]
+
+
+def _cut_default(rng, base):
+    """a default for a VARCHAR / BLOB column that its length will cut: text, or the bytes that text encodes to"""
+    t = rng.choice(CUT_TEXTS)
+    return S_(t) if rng.random() < 0.5 else ["y", list(t.encode("utf-8"))]
+
+
 def _case_variant(rng, s):
     r = rng.random()
     if r < 0.6:
@@ -1068,9 +1088,9 @@ def _rand_type(rng):
         s = rng.choice([x for x in (0, 0, 1, 2, 4, 5, 10, 21, 30, 38) if x <= p])
         return ("decimal(p,s)", S_(_case_variant(rng, "DECIMAL(%d,%s%d)" % (p, rng.choice(["", " "]), s))), "DECIMAL")
     if r < 0.78:
-        return ("varchar[n]", S_(_case_variant(rng, "VARCHAR[%d]" % rng.choice([0, 1, 10, 255, 2 ** 31]))), "VARCHAR")
+        return ("varchar[n]", S_(_case_variant(rng, "VARCHAR[%d]" % rng.choice([0, 1, 2, 3, 4, 5, 10, 255, 2 ** 31]))), "VARCHAR")
     if r < 0.86:
-        return ("blob[n]", S_(_case_variant(rng, "BLOB[%d]" % rng.choice([0, 3, 16, 2 ** 20]))), "BLOB")
+        return ("blob[n]", S_(_case_variant(rng, "BLOB[%d]" % rng.choice([0, 1, 2, 3, 4, 5, 8, 16, 2 ** 20]))), "BLOB")
     if r < 0.97:
         return ("array<T>", S_(_case_variant(rng, "ARRAY<%s>" % rng.choice(SCALARS))), "ARRAY")
     if r < 0.985:
@@ -1129,6 +1149,8 @@ def _column(rng, name, toggles=None, form=None):
         pool = DEFAULTS.get(base, [])
         if base == "DECIMAL" and (rng.random() < 0.6 or label.startswith("wide-decimal")):
             kw.append(["default", _wide_decimal(rng, *_decimal_params(tev))])
+        elif base in ("VARCHAR", "BLOB") and toggles is None and rng.random() < 0.5:
+            kw.append(["default", _cut_default(rng, base)])
         elif pool:
             kw.append(["default", rng.choice(pool if toggles is None else pool[:3])])
     if on("aliases"):
@@ -1151,7 +1173,7 @@ def _column(rng, name, toggles=None, form=None):
         else:
             kw.append(["identity", S_(_ident(rng))])
     if on("length"):
-        kw.append(["length", I_(rng.choice([7, 0, 255]))])
+        kw.append(["length", I_(rng.choice([7, 0, 255] if toggles is not None else [7, 0, 255, 1, 2, 3, 5]))])
     if on("precision"):
         kw.append(["precision", I_(rng.choice([5, 10, 0, 38]))])
     if on("scale"):
@@ -1209,9 +1231,35 @@ def _schema_case(rng, specs, focus=None, stats=None, toggles=None):
             "records": _records(rng, [(s, b) for s, _, b in specs]), "focus": focus}
 
 
+def _given_identity(rng, spec):
+    if not any(k == "identity" for k, _ in spec["kw"]):
+        spec["kw"].append(["identity", S_(_ident(rng))])
+
+
+def _repeat_names(rng, specs):
+    """make the schema hold several columns of one name: another column renamed to it (different identity / type), an
+    equal twin (same keywords, hence same identity) or the very same object listed twice"""
+    i = rng.randrange(len(specs))
+    spec, label, base = specs[i]
+    r = rng.random()
+    if r < 0.5 and len(specs) > 1:
+        j = rng.choice([x for x in range(len(specs)) if x != i])
+        name = dict((a, b) for a, b in spec["kw"])["name"]
+        specs[j][0]["kw"] = [[k, (name if k == "name" else v)] for k, v in specs[j][0]["kw"]]
+        return specs
+    _given_identity(rng, spec)
+    twin = {"kw": [list(x) for x in spec["kw"]]}
+    at = rng.randrange(i + 1, len(specs) + 1)
+    if r < 0.8:
+        twin["same_as"] = i
+    return specs[:at] + [(twin, label, base)] + specs[at:]
+
+
 def _random_schema(rng):
     k = rng.choice([1, 1, 2, 2, 3, 4])
     specs = [_column(rng, n) for n in _names(rng, k)]
+    if rng.random() < 0.2:
+        specs = _repeat_names(rng, specs)
     stats = None
     if rng.random() < 0.3:
         stats = [rng.choice([I_(10), ["n"], I_(0), I_(2 ** 40)]) for _ in range(4)]
@@ -1239,13 +1287,67 @@ def exhaustive(tier):
             for tg in TOGGLES:
                 spec = _column(rng, "c0", toggles=set(tg) | {"identity"}, form=form)
                 yield _schema_case(rng, [spec], toggles=set(tg))
+        for c in _cut_sweep():
+            yield c
+        for c in _repeated_name_cases():
+            yield c
         for cls in EXTRAS:
             for form in type_forms():
                 spec, _, _ = _column(rng, "q", toggles={"default", "aliases", "description", "nullable", "statistics", "identity", "disposition", "length"}, form=form)
                 yield {"kind": "flat", "cls": cls, "kw": spec["kw"], "focus": None}
 
     return it(), ("every type-name form (each member name, members given as enum, DECIMAL(p,s), VARCHAR[n], BLOB[n], ARRAY<T> for every scalar T, "
-                  "untyped, 0/VARIANT) x each optional attribute alone and all together as a one-column schema; every column class x every type form for to_flatcolumn")
+                  "untyped, 0/VARIANT) x each optional attribute alone and all together as a one-column schema; VARCHAR[n] / BLOB[n] for n in 1,2,3,4,5,8 x "
+                  "defaults of 1- to 4-byte characters given as text and as bytes (length by name and by keyword); schemas with repeated column names "
+                  "(different identities, equal twins, the same object twice); every column class x every type form for to_flatcolumn")
+
+
+def _cut_sweep():
+    """VARCHAR[n] / BLOB[n] x defaults whose character count and UTF-8 byte count differ, given as text and as bytes"""
+    k = 0
+    for m in ("BLOB", "VARCHAR"):
+        for n in CUT_LENGTHS:
+            for t in CUT_TEXTS[:4]:
+                for as_bytes in (False, True):
+                    k += 1
+                    d = ["y", list(t.encode("utf-8"))] if as_bytes else S_(t)
+                    if n == 3:      # the length given by keyword instead of by the type name
+                        kw = [["name", S_("payload")], ["type", S_(m)], ["length", I_(n)], ["default", d]]
+                    else:
+                        kw = [["name", S_("payload")], ["type", S_("%s[%d]" % (m, n))], ["default", d]]
+                    kw += [["nullable", ["b", False]], ["identity", S_("%016x" % (0xC16 * 2 ** 32 + k))]]
+                    yield _one([kw], pk=S_("payload"))
+    for cls in ("FlatColumn", "FunctionColumn", "DictionaryColumn"):
+        for m in ("BLOB[2]", "VARCHAR[2]"):
+            for d in (S_(CUT_TEXTS[0]), ["y", list(CUT_TEXTS[2].encode("utf-8"))]):
+                k += 1
+                yield {"kind": "flat", "cls": cls, "focus": None,
+                       "kw": [["name", S_("payload")], ["type", S_(m)], ["default", d], ["identity", S_("%016x" % (0xC16 * 2 ** 32 + k))]]}
+
+
+def _repeated_name_cases():
+    """schemas in which several columns share a name (told apart by identity): a self-join, `a.id, b.id`, one column
+    selected twice (an equal copy / the same object)"""
+    left = [["name", S_("id")], ["type", S_("VARCHAR[12]")], ["identity", S_("left0001")], ["aliases", ["l", [S_("l.id")]]], ["nullable", ["b", False]]]
+    name = [["name", S_("name")], ["type", S_("VARCHAR")], ["identity", S_("name0001")], ["default", S_("n/a")]]
+    right = [["name", S_("id")], ["type", S_("INTEGER")], ["identity", S_("right001")], ["aliases", ["l", [S_("r.id")]]], ["description", S_("joined key")]]
+    amount = [["name", S_("amount")], ["type", S_("DECIMAL(10,2)")], ["identity", S_("amount01")], ["default", S_("1.50")]]
+    untyped = [["name", S_("id")], ["identity", S_("untyped1")]]
+    recs = [[["id", I_(1)], ["name", S_("a")], ["amount", ["n"]]], [["id", S_("1")], ["name", S_("a")], ["amount", ["n"]]],
+            [["id", ["n"]], ["name", ["n"]], ["amount", ["n"]]]]
+    ids = [[["id", I_(1)]], [["id", S_("1")]], [["id", ["n"]]]]
+    yield _one([left, name, right, amount], pk=S_("id"), records=recs)
+    yield _one([right, left], records=ids)
+    yield _one([left, right, untyped], pk=S_("id"), records=ids)
+    yield _one([left, left], records=ids)                                   # an equal twin
+    yield _one([name, amount, name], records=recs)
+    c = _one([name, amount, name], records=recs)                             # the same object twice
+    c["cols"][2]["same_as"] = 0
+    yield c
+    c = _one([right, right, left, right], pk=S_("id"), records=ids)
+    c["cols"][1]["same_as"] = 0
+    c["cols"][3]["same_as"] = 0
+    yield c
 
 
 def _focus_cases(rng):
@@ -1291,8 +1393,13 @@ def shrink(case):
         cols = case["cols"]
         if len(cols) > 1:
             for i in range(len(cols)):
-                yield dict(case, cols=cols[:i] + cols[i + 1:], pk=["n"])
+                rest = cols[:i] + cols[i + 1:]
+                if any("same_as" in c for c in rest):     # positions shift: the shared objects become equal copies
+                    rest = [{"kw": c["kw"]} for c in rest]
+                yield dict(case, cols=rest, pk=["n"])
         for i, c in enumerate(cols):
+            if any("same_as" in x for x in cols):
+                continue
             for j in range(1, len(c["kw"])):
                 yield dict(case, cols=cols[:i] + [{"kw": c["kw"][:j] + c["kw"][j + 1:]}] + cols[i + 1:])
         if case["records"]:
@@ -1411,11 +1518,21 @@ def classify(case, obs):
             yield "with:primary-key"
         if case["aliases"] != ["l", []]:
             yield "with:schema-aliases"
+        names = [dict((a, repr(b)) for a, b in c["kw"]).get("name") for c in specs]
+        if len(set(names)) < len(names):
+            yield "repeated-column-names"
+        if any(c.get("same_as") is not None for c in specs):
+            yield "same-column-object-twice"
     for s in specs:
         yield "type:" + _form_of(s["kw"])
         for k, v in s["kw"]:
             if k not in ("name", "type", "identity"):
                 yield "with:" + k + (":" + v[0] if k == "default" else "")
+        d = dict((a, b) for a, b in s["kw"])
+        if _form_of(s["kw"]) in ("varchar-form", "blob-form") or d.get("length", ["n"])[0] == "i":
+            v = d.get("default")
+            if v is not None and v[0] in ("s", "y") and any(x > 127 for x in (v[1] if v[0] == "y" else map(ord, v[1]))):
+                yield "length-cut:non-ascii-default"
     if _built(obs) is None:
         yield "column-definition-rejected"
 
@@ -1425,12 +1542,15 @@ TECHNIQUE = ("Coq proof over an executable model of FlatColumn.__init__ / to_dic
 LEVEL_TEXT = ("Machine-checked Coq theorems: for every well-formed column (any values in the free attributes) the dictionary and the JSON round trip restore "
               "every declared attribute, and every well-formed schema its name, aliases, primary key and columns; flattening keeps the listed attributes; "
               "validate (Model/C05) and the description of the restored schema coincide with the original's. The type attribute of untyped columns is excluded "
-              "(known finding F-C16-4b) and refuted on a witness; the schema's four statistics are included. The model is tied to orso/schema.py by running real schemas over every type-name form x each "
+              "(known finding F-C16-4b) and refuted on a witness; the schema's four statistics are included. For BLOB[n] / VARCHAR[n] the length cut of the default is modelled "
+              "concretely (bytes vs characters, UTF-8 from Model/C08) and proved idempotent, so the default premise is proved for these types; the restored schema keeps every "
+              "column in place whether or not names repeat. The model is tied to orso/schema.py by running real schemas over every type-name form x each "
               "optional attribute (and random combinations) through all five operations and evaluating the model on the same inputs inside Coq; an "
               "attribute-by-attribute, type-strict oracle on the implementation supplies replayable failing inputs.")
 LEVEL_NOTE = ("Trusted: Coq kernel + vm_compute; the hand-written model; Model/C06 from_name for the re-parse of type names (ASCII); OrsoTypes.parse (C07) and "
               "orjson's leaf serialisation enter as section parameters with the round-trip hypotheses stated in the theorems, instantiated in the correspondence "
-              "by the results observed on the real functions. Partial: type of untyped columns (F-C16-4b); known findings F-C16-8 (ARRAY without element type) and F-C16-10 "
+              "by the results observed on the real functions; the default hypothesis is evaluated in Coq on every built column (default_fixed) and observed BLOB / VARCHAR "
+              "casts are compared with the concrete sub-model text_cast (parse_conforms); a negative length keyword is outside the claim (C16_negative_length_refuted). Partial: type of untyped columns (F-C16-4b); known findings F-C16-8 (ARRAY without element type) and F-C16-10 "
               "(values JSON cannot carry back) are guarded by explicit input classes (see notes/C16.md). The attribute `expectations` is not among those the "
               "property enumerates: the oracle does not compare it (observation: Expectation objects come back as dictionaries); the model still covers it. NaN values are not generated. validate is compared by the oracle on a record battery, its model is C05's.")
 DESIGN_REF = "DESIGN.md section 8, C16"
@@ -1441,16 +1561,18 @@ RULE = ("schemas of 1-4 FlatColumns built through the real constructor from keyw
         "enum members, DECIMAL(p,s), VARCHAR[n], BLOB[n], ARRAY<T>, untyped, 0/VARIANT, a few invalid names) x optional attributes (aliases, default drawn from "
         "per-type pools incl. Decimal/bytes/date/text-to-parse, description, disposition by member and by value, non-nullable, statistics, identity, length, "
         "precision, scale, element type, origin, expectations) x schema aliases / primary key / statistics; exhaustive one-column sweep of every form x each "
-        "attribute alone and all together; all six column classes for to_flatcolumn; a case is non-trivial when every column definition was accepted; "
+        "attribute alone and all together; VARCHAR[n] / BLOB[n] (n = 1..5, 8, by name and by the length keyword) x non-ASCII defaults (1- to 4-byte characters) given as text and as "
+        "bytes; schemas whose columns share a name (renamed column, equal twin, the same object listed twice); all six column classes for to_flatcolumn; a case is non-trivial when every column definition was accepted; "
         "distinct by the case without its random identities")
 TRUSTED = [
     "C16 model (coq/Model/C16.v): a column is its attribute dictionary over the regenerated field list; FlatColumn.__init__ as collect/normalise steps",
-    "Model/C06.v from_name (re-parse of type names, ASCII text), Model/C05.v validate (the restored schema is projected onto C05's column view)",
+    "Model/C06.v from_name (re-parse of type names, ASCII text), Model/C05.v validate (the restored schema is projected onto C05's column view), Model/C08.v utf8_encode / utf8_decode (the BLOB / VARCHAR length cut)",
     "modelled, not verified: dataclasses.asdict, orjson (native JSON forms modelled, other leaves observed), OrsoTypes.parse (observed), DataFrame.description per column",
     "harness: value canonicalisation in tools/props/C16.py enc() (Decimal by normalised value, floats by bits, everything else by class and repr)",
 ]
 ASSUMPTIONS = [
     "theorem hypotheses: parse (with the column's own length / precision / scale / element type) is the identity on the stored default of a typed column (dictionary path) and restores it from its JSON form (JSON path); statistics and other free attributes survive JSON (native JSON values do, proved)",
-    "names and aliases within one schema are distinct (DataFrame.description looks columns up by name)",
+    "column names within one schema may repeat (generated: different identities, equal twins, the same object twice); no theorem assumes them distinct. The whole-schema DataFrame.description looks columns up by name, so it is compared original vs restored only; the per-column description is taken through one-column schemas",
+    "the length of a VARCHAR / BLOB column is None or >= 0 (a negative length keyword re-cuts on every load: C16_negative_length_refuted, never generated)",
     "NaN defaults / statistics are outside the claim (NaN != NaN)",
 ]
